@@ -1,13 +1,380 @@
 package c02
 
 import (
+	"fmt"
+	"os"
+	"sort"
+	"strings"
+	"time"
+
+	bo "github.com/benoitkugler/webrender/html/boxes"
 	"github.com/benoitkugler/webrender/text"
 
 	"wrverif/mp"
+	"wrverif/render"
 	"wrverif/res"
 	"wrverif/rng"
 )
 
+// flow kinds
+const (
+	flowNormal = iota
+	flowFloat
+	flowAbs
+	flowRepeat // table header/footer groups, position:fixed: CSS-defined repetition
+)
+
+type flowInfo struct {
+	kind int
+	rep  string // for flowRepeat: "fixed" | "thead" | "tfoot"
+	id   string // element id of the flow root ("" for the normal flow)
+	toks []int
+}
+
+// General is one generated general document.
+type General struct {
+	HTML     string
+	Flows    []*flowInfo
+	FlowOf   map[int]int // token id -> flow index
+	Features map[string]bool
+}
+
+type ggen struct {
+	r    *rng.R
+	n    int
+	nid  int
+	buf  strings.Builder
+	doc  *General
+	cur  int // current flow
+	feat map[string]bool
+}
+
+func (g *ggen) tok() string {
+	g.n++
+	g.doc.FlowOf[g.n] = g.cur
+	g.doc.Flows[g.cur].toks = append(g.doc.Flows[g.cur].toks, g.n)
+	return Tok(g.n)
+}
+
+func (g *ggen) newFlow(kind int) (restore func(), id string) {
+	g.nid++
+	id = fmt.Sprintf("f%d", g.nid)
+	g.doc.Flows = append(g.doc.Flows, &flowInfo{kind: kind, id: id})
+	old := g.cur
+	g.cur = len(g.doc.Flows) - 1
+	return func() { g.cur = old }, id
+}
+
+// lines writes k tokens separated by <br> (or by spaces: real line breaking)
+func (g *ggen) lines(k int, spaces bool) {
+	for i := 0; i < k; i++ {
+		if i > 0 {
+			if spaces {
+				g.buf.WriteString(" ")
+			} else {
+				g.buf.WriteString("<br>")
+			}
+		}
+		g.buf.WriteString(g.tok())
+	}
+}
+
+func (g *ggen) breaks() string {
+	r := g.r
+	var st []string
+	if r.P(1, 6) {
+		st = append(st, "break-before:"+rng.Pick(r, "avoid", "page", "left", "right"))
+	}
+	if r.P(1, 6) {
+		st = append(st, "break-after:"+rng.Pick(r, "avoid", "page"))
+	}
+	if r.P(1, 6) {
+		st = append(st, "break-inside:avoid")
+	}
+	if r.P(1, 6) {
+		st = append(st, fmt.Sprintf("orphans:%d;widows:%d", 1+r.Intn(3), 1+r.Intn(3)))
+	}
+	if r.P(1, 5) {
+		st = append(st, fmt.Sprintf("margin:%dpx 0 %dpx", r.Intn(3)*10, r.Intn(3)*10))
+	}
+	return strings.Join(st, ";")
+}
+
+func (g *ggen) item(depth int, allowOOF bool) {
+	r := g.r
+	c := r.Intn(14)
+	switch {
+	case c <= 4 || depth > 2: // paragraph
+		sp := r.P(1, 4)
+		if sp {
+			g.feat["wrapped-text"] = true
+		}
+		fmt.Fprintf(&g.buf, `<div style="%s">`, g.breaks())
+		g.lines(1+r.Intn(7), sp)
+		g.buf.WriteString("</div>")
+	case c <= 6: // nested block
+		fmt.Fprintf(&g.buf, `<div style="%s">`, g.breaks())
+		k := 1 + r.Intn(3)
+		for i := 0; i < k; i++ {
+			g.item(depth+1, allowOOF)
+		}
+		g.buf.WriteString("</div>")
+		g.feat["nested"] = true
+	case c <= 8 && allowOOF: // float
+		restore, id := g.newFlow(flowFloat)
+		fmt.Fprintf(&g.buf, `<div id="%s" style="float:%s;width:%dpx;%s">`, id, rng.Pick(r, "left", "right"), 60+20*r.Intn(3), g.breaks())
+		g.lines(1+r.Intn(9), false)
+		g.buf.WriteString("</div>")
+		restore()
+		g.feat["float"] = true
+	case c == 9 && allowOOF: // absolutely positioned
+		restore, id := g.newFlow(flowAbs)
+		fmt.Fprintf(&g.buf, `<div id="%s" style="position:absolute;top:%dpx;left:100px;width:80px">`, id, r.Intn(5)*20)
+		g.lines(1+r.Intn(3), false)
+		g.buf.WriteString("</div>")
+		restore()
+		g.feat["absolute"] = true
+	case c == 10 && allowOOF: // fixed: repeated on every page
+		restore, id := g.newFlow(flowRepeat)
+		g.doc.Flows[g.cur].rep = "fixed"
+		fmt.Fprintf(&g.buf, `<div id="%s" style="position:fixed;bottom:0;left:120px;width:60px">`, id)
+		g.lines(1, false)
+		g.buf.WriteString("</div>")
+		restore()
+		g.feat["fixed"] = true
+	case c == 11: // paragraph with an inline-block
+		g.buf.WriteString(`<div>`)
+		g.buf.WriteString(g.tok())
+		g.buf.WriteString(` <span style="display:inline-block;width:60px">`)
+		g.lines(1+r.Intn(3), false)
+		g.buf.WriteString(`</span><br>`)
+		g.buf.WriteString(g.tok())
+		g.buf.WriteString("</div>")
+		g.feat["inline-block"] = true
+	case c >= 12: // table with header / footer groups
+		g.buf.WriteString(`<table style="border-spacing:0">`)
+		if r.Bool() {
+			restore, id := g.newFlow(flowRepeat)
+			g.doc.Flows[g.cur].rep = "thead"
+			fmt.Fprintf(&g.buf, `<thead id="%s"><tr><td style="padding:0">%s</td></tr></thead>`, id, g.tok())
+			restore()
+			g.feat["thead"] = true
+		}
+		var foot string
+		if r.P(1, 3) {
+			restore, id := g.newFlow(flowRepeat)
+			g.doc.Flows[g.cur].rep = "tfoot"
+			foot = fmt.Sprintf(`<tfoot id="%s"><tr><td style="padding:0">%s</td></tr></tfoot>`, id, g.tok())
+			restore()
+			g.feat["tfoot"] = true
+		}
+		g.buf.WriteString("<tbody>")
+		k := 1 + r.Intn(7)
+		for i := 0; i < k; i++ {
+			g.buf.WriteString(`<tr><td style="padding:0">`)
+			g.lines(1+r.Intn(2), false)
+			g.buf.WriteString("</td></tr>")
+		}
+		g.buf.WriteString("</tbody>" + foot + "</table>")
+		g.feat["table"] = true
+	default:
+		fmt.Fprintf(&g.buf, `<div style="%s">`, g.breaks())
+		g.lines(1+r.Intn(5), false)
+		g.buf.WriteString("</div>")
+	}
+}
+
+// GenGeneral builds a general document.  mode 0: everything; 1: floats only (besides blocks);
+// 2: no out-of-flow boxes (tables, inline-blocks, wrapped text).
+func GenGeneral(r *rng.R, mode int) *General {
+	d := &General{FlowOf: map[int]int{}, Features: map[string]bool{}}
+	d.Flows = []*flowInfo{{kind: flowNormal}}
+	g := &ggen{r: r, doc: d, feat: d.Features}
+	h := 60 + r.Intn(8)*20
+	fmt.Fprintf(&g.buf, `<style>@page{size:220px %dpx;margin:10px} html,body{margin:0;font:20px/20px Ahem} td{padding:0}</style><body>`, h+20)
+	k := 2 + r.Intn(6)
+	for i := 0; i < k; i++ {
+		g.item(0, mode != 2)
+	}
+	d.HTML = g.buf.String()
+	return d
+}
+
+// tokensOf splits the text of every text box into tokens, per page, in tree order.
+func tokensOf(pages []*bo.PageBox) (perPage [][]int, stray []string) {
+	perPage = make([][]int, len(pages))
+	for pi, p := range pages {
+		for _, d := range bo.DescendantsPlaceholders(p, true) {
+			if tb, ok := d.(*bo.TextBox); ok {
+				for _, w := range strings.Fields(tb.TextS()) {
+					if id := TokID(w); id != 0 {
+						perPage[pi] = append(perPage[pi], id)
+					} else {
+						stray = append(stray, w)
+					}
+				}
+			}
+		}
+	}
+	return perPage, stray
+}
+
+// elementFragments counts, for every element id, the out-of-flow (floated / absolutely positioned)
+// boxes generated by that element over all pages.
+func elementFragments(pages []*bo.PageBox) map[string]int {
+	out := map[string]int{}
+	for _, p := range pages {
+		for _, d := range bo.DescendantsPlaceholders(p, true) {
+			b := d.Box()
+			if b.Element == nil || !(b.IsFloated() || b.IsAbsolutelyPositioned()) {
+				continue
+			}
+			for _, a := range b.Element.Attr {
+				if a.Key == "id" {
+					out[a.Val]++
+				}
+			}
+		}
+	}
+	return out
+}
+
 func runGeneral(m *mp.Model, r *rng.R, n int, fonts text.FontConfiguration, out *res.Result) error {
+	timeouts := 0
+	for i := 0; i < n; i++ {
+		sub := r.Sub()
+		seed := sub.Seed()
+		doc := GenGeneral(sub, i%3)
+		var pages []*bo.PageBox
+		var rec *render.Rec
+		draw := i%4 == 0
+		o := render.Guard(8*time.Second, func() {
+			if draw {
+				d, err := render.Full(doc.HTML, fonts, render.Opts{})
+				if err == nil {
+					pages, rec = d.Pages, d.Rec
+				}
+			} else {
+				pages, _, _ = render.LayoutOnly(doc.HTML, fonts, render.Opts{})
+			}
+		})
+		if !o.OK() {
+			// crashes and hangs of the real code are C01's findings; here the case is skipped
+			out.Count(doc.HTML, false)
+			if o.Timeout {
+				out.Hit("general:skipped-timeout")
+				timeouts++
+				if timeouts >= 4 {
+					out.Notes = append(out.Notes, fmt.Sprintf("general run stopped after %d cases: %d layouts timed out (reported under C01)", i+1, timeouts))
+					return nil
+				}
+			} else {
+				out.Hit("general:skipped-panic:" + o.Site)
+			}
+			continue
+		}
+		generalCase(m, doc, pages, rec, seed, out)
+	}
 	return nil
+}
+
+func generalCase(m *mp.Model, doc *General, pages []*bo.PageBox, rec *render.Rec, seed uint64, out *res.Result) {
+	out.Count(doc.HTML, len(pages) >= 2)
+	out.Hit(fmt.Sprintf("general:pages=%d", min(len(pages), 8)))
+	for f := range doc.Features {
+		out.Hit("general:feature:" + f)
+	}
+	perPage, stray := tokensOf(pages)
+	if len(stray) != 0 {
+		out.Add(res.Finding{Kind: "judge", Op: "judge:general-stray-text", Input: doc.HTML, Reason: fmt.Sprintf("text that is not in the document: %q", stray), Seed: seed})
+	}
+	frags := elementFragments(pages)
+	// per flow: the observed sequence over all pages
+	got := make([][]int, len(doc.Flows))
+	perPageFlow := make([]map[int]map[int]int, len(doc.Flows)) // flow -> page -> token -> count
+	for pi, p := range perPage {
+		for _, t := range p {
+			f := doc.FlowOf[t]
+			got[f] = append(got[f], t)
+			if perPageFlow[f] == nil {
+				perPageFlow[f] = map[int]map[int]int{}
+			}
+			if perPageFlow[f][pi] == nil {
+				perPageFlow[f][pi] = map[int]int{}
+			}
+			perPageFlow[f][pi][t]++
+		}
+	}
+	// violations are grouped by class; the class is the Finding.Key
+	byClass := map[string][]string{}
+	add := func(class, why string) { byClass[class] = append(byClass[class], why) }
+	for fi, f := range doc.Flows {
+		if f.kind == flowRepeat {
+			// CSS-defined repetition: every token at least once, at most once per page
+			seen := map[int]int{}
+			for _, t := range got[fi] {
+				seen[t]++
+			}
+			for _, t := range f.toks {
+				if seen[t] == 0 {
+					add(f.rep+"-never-laid-out", fmt.Sprintf("%s %s: %s is on no page", f.rep, f.id, Tok(t)))
+				}
+			}
+			for pi, cnt := range perPageFlow[fi] {
+				for t, n := range cnt {
+					if n > 1 {
+						add(f.rep+"-duplicated-on-page", fmt.Sprintf("%s %s: %s laid out %d times on page %d", f.rep, f.id, Tok(t), n, pi))
+					}
+				}
+			}
+			continue
+		}
+		v, bad := judgeTokens(f.toks, got[fi])
+		if v == "ok" {
+			continue
+		}
+		var names []string
+		for _, t := range bad {
+			names = append(names, Tok(t))
+		}
+		switch f.kind {
+		case flowFloat:
+			// history predicate: the float was split (>= 2 fragments generated by the float element, or
+			// part of its text is on no page although the float was laid out)
+			if frags[f.id] >= 2 || (v == "lost" && frags[f.id] >= 1) {
+				add("float-fragmented", fmt.Sprintf("float %s (%d fragments): text %s %v", f.id, frags[f.id], v, names))
+			} else {
+				add("float-unsplit", fmt.Sprintf("float %s (%d fragments): text %s %v", f.id, frags[f.id], v, names))
+			}
+		case flowAbs:
+			if frags[f.id] >= 2 || (v == "lost" && frags[f.id] >= 1) {
+				add("abspos-fragmented", fmt.Sprintf("abs-pos %s (%d fragments): text %s %v", f.id, frags[f.id], v, names))
+			} else {
+				add("abspos-unsplit", fmt.Sprintf("abs-pos %s (%d fragments): text %s %v", f.id, frags[f.id], v, names))
+			}
+		default:
+			add("normal-flow", fmt.Sprintf("normal flow: text %s %v", v, names))
+		}
+	}
+	classes := make([]string, 0, len(byClass))
+	for c := range byClass {
+		classes = append(classes, c)
+	}
+	sort.Strings(classes)
+	for _, c := range classes {
+		sort.Strings(byClass[c])
+		out.Add(res.Finding{Kind: "judge", Op: "judge:general-conservation", Input: doc.HTML, Impl: fmt.Sprint(perPage),
+			Reason: strings.Join(byClass[c], "; "), Key: c, Seed: seed})
+		out.Hit("general:violation:" + c)
+		if os.Getenv("C02_DEBUG") != "" {
+			fmt.Fprintln(os.Stderr, "DBG", c, "|", strings.Join(byClass[c], "; "), "|", doc.HTML, "|", perPage)
+		}
+	}
+	if rec != nil {
+		out.Hit("general:drawn")
+		texts := PageTexts(pages)
+		if why := drawJudge(texts, DrawTexts(rec)); why != "" {
+			out.Add(res.Finding{Kind: "judge", Op: "judge:general-drawtext", Input: doc.HTML, Reason: why, Seed: seed})
+		}
+	}
 }
